@@ -42,6 +42,7 @@ f = st.floats
 CHILD = os.path.join(ROOT, "vlib", "c03_child.py")
 
 case_strategy = st.fixed_dictionaries({
+    "rep": skyimg.rep_strategy,      # how the image is stored (CD matrix, degenerate axes, BSCALE/BZERO)
     "field": fields.field_strategy,
     "mode": st.sampled_from(["blind", "blind", "blind", "prior-blind", "prior-synth", "prior-synth"]),
     "islandflux": st.booleans(),
@@ -300,7 +301,7 @@ def check_case(c):
     d = workdir("c03_")
     try:
         path = os.path.join(d, "im.fits")
-        skyimg.write_fits(path, F["img"], F["hdr"])
+        skyimg.write_fits(path, F["img"], F["hdr"], rep=c.get("rep"))
         sources, docov = run_case(c, path, F)
         comps, isles = check_rows(sources, res, what, F, c, docov)
         if c["table"] and comps and not res.violations:
